@@ -15,7 +15,7 @@ except Exception:  # pragma: no cover
     NoTracing = ResumedTracing = None
     is_tracing = lambda: False  # noqa: E731
 
-POOL = [b"alpha", b"beta", b"gamma"]
+POOL = [b"alpha", b"radioactive", b"gamma"]
 BODIES = [b"keep;\r\n", b"keep;\n", b"keep;", b"", b"OK\r\n{5}\r\nNO \"x\"\r\n", b"# \xc3\xa9\r\nstop;\r\n", b'if true {\r\n  keep;\r\n}\r\n',
           'reject "a\x0bb\x0cc\x1cd\x85e\u2028f\u2029g";\r\n'.encode("utf-8")]
 NB = len(BODIES)
